@@ -9,6 +9,8 @@ COMMON_ASSUMPTIONS = [
     "one event loop, one thread; code between two suspension points is atomic",
     "TestNode.params / TestObject.params are read with a warm cache (no re-parse during the function)",
     "library list values are treated as values (no aliasing of list objects across fields)",
+    "formatting an object into a string (f-strings, log arguments) is an uninterpreted total function: __repr__ / __str__ of "
+    "repository classes are not executed (TestWorker.__repr__ reads parameters every parsed worker has)",
 ]
 
 COMMON_TRUSTED = [
